@@ -686,7 +686,7 @@ func nbtSpecRun(env *vk.Env) []nbtVec {
 
 func nbtRule(env *vk.Env) {
 	env.Cov.Rule = "S: TLC checks EncDoc against the independently written DecDoc on a bounded universe of documents (all 12 tags, empty lists of every element type, lists of lists/arrays/compounds, extreme values, odd keys) x {file, network}: round trip with junk behind, every strict prefix fails. A: each universe document is fed (with trailing bytes) to the real decode entry points; B: random deep documents, random Go values of generated type expressions, mutated documents. Every recorded call is judged by NBT_Trace (DecDoc / EncodeGo evaluated by TLC). Distinct/non-trivial = distinct (kind, target/type class, root tag or mutation class) combinations."
-	env.Assume = []string{"string bytes are opaque (modified UTF-8 validity is not part of the property)", "empty-list element types are not observable after decoding into Go values and are compared loosely there (byte-exact carriers check them)", "interface-typed fields are compared through the encoder's output only", "declared lengths in generated hostile inputs are capped at 2^24"}
+	env.Assume = []string{"string bytes are opaque (modified UTF-8 validity is not part of the property)", "empty-list element types are not observable after decoding into Go values and are compared loosely there (byte-exact carriers check them)", "interface-typed values are the dynamic types the decoder itself produces (int8..int64, float32/64, string, []byte, []int32, []int64, homogeneous []any, map[string]any) and are compared by dynamic type and value", "signalling float32 NaN patterns are not generated: Go's float32<->float64 conversions (reflect SetFloat/Float, used by the library for typed destinations and by the harness projection) set the quiet bit; all other NaN payloads are compared bit for bit", "declared lengths in generated hostile inputs are capped at 2^24"}
 }
 
 func runC01(env *vk.Env) {
